@@ -186,6 +186,7 @@ class Session:
         ok = tree is not None and self.tab.sid(tree) == self.tab.sid(self.root.a) and \
             self.tab.pid(tree) == self.tab.pid(self.root.a)
         self.msrc = src
+        self.mtree = tree
         self.tabs = any(ln.startswith('\t') for ln in src.split('\n'))
         self.mrows = stmt_rows(src, tree, self.blocks) if tree is not None else []
         self._keep = [n for n, _ in walk(self.root.a, True)]
@@ -201,6 +202,14 @@ class Session:
         org = 'mark' if p is not None else 'other' if id(owner) in self.other_ids else 'new'
         return {'known': p is not None, 'org': org, 'path': pj(p or ()), 'kind': owner.__class__.__name__, 'n': field,
                 'mode': mode, 'i': 0 if idx is None else idx + 1, 'src': src}
+
+    def parent_kind(self, node) -> str:
+        """Class of the parent the object had in the marked tree ('' if it was not part of it)."""
+        p = self.mpaths.get(id(node))
+        if not p or self.mtree is None:
+            return ''
+        par = node_at(self.mtree, p[:-1])
+        return par.__class__.__name__ if par is not None else ''
 
     def register_other(self, fst_root):
         """Remember the AST objects of another FST tree (kept alive) so that sites inside them are classed 'other'."""
@@ -379,13 +388,28 @@ class Mutator:
         s = self.s
         nodes = [(n, p) for n, p in walk(s.root.a) if not isinstance(n, FSTRINGY)]
         for _ in range(30):
-            owner, cur = rng.choice(nodes) if rng.random() < 0.5 else \
-                rng.choice([x for x in nodes if isinstance(x[0], (ast.stmt, ast.mod))] or nodes)
-            kind = owner.__class__.__name__
-            fl = [f for f in grammar.FIELDS.get(kind, ()) if f[0] != 'ctx']
-            if not fl:
-                continue
-            field, typ, q = rng.choice(fl)
+            strat = None
+            if rng.random() < 0.3:
+                # stratified by (node class, list field): rare statement-ish lists (Try.finalbody, While.orelse, Match.cases,
+                # ...) are mutated as often as Module.body
+                groups = {}
+                for o, _p in nodes:
+                    for f, t, qq in grammar.FIELDS.get(o.__class__.__name__, ()):
+                        if qq == '*' and t in grammar.STMTISH:
+                            groups.setdefault((o.__class__.__name__, f), []).append((o, (f, t, qq)))
+                if groups:
+                    strat = rng.choice(groups[rng.choice(sorted(groups))])
+            if strat:
+                owner, (field, typ, q) = strat
+                kind = owner.__class__.__name__
+            else:
+                owner, cur = rng.choice(nodes) if rng.random() < 0.5 else \
+                    rng.choice([x for x in nodes if isinstance(x[0], (ast.stmt, ast.mod))] or nodes)
+                kind = owner.__class__.__name__
+                fl = [f for f in grammar.FIELDS.get(kind, ()) if f[0] != 'ctx']
+                if not fl:
+                    continue
+                field, typ, q = rng.choice(fl)
             val = getattr(owner, field, None)
             where = ('stmt' if typ in grammar.STMTISH else 'expr' if typ == 'expr' else 'prim' if typ in grammar.PRIM_TYPES
                      else 'op' if typ in grammar.OP_TYPES else typ)
@@ -419,7 +443,8 @@ class Mutator:
                         continue
                     node, org, d = got
                     val[i] = node
-                    s.mutated(f'replace_{org}', f'{where}.list.{pc(i)}{mk(i, node)}', [s.site(owner, field, 'slot', i)],
+                    s.mutated(f'replace_{org}', f'{where}.list.{pc(i)}{mk(i, node)}',
+                              [s.site(owner, field, 'slot', i, src=s.parent_kind(node))],
                               f'{kind}.{field}[{i}] = {org}:{d}')
                     return True
                 if op == 'insert':
@@ -430,7 +455,7 @@ class Mutator:
                     node, org, d = got
                     val.insert(i, node)
                     s.mutated(f'insert_{org}', f'{where}.list.{"end" if i == n else pc(i)}{mk(i, node)}',
-                              [s.site(owner, field, 'list', i)], f'{kind}.{field}.insert({i}, {org}:{d})')
+                              [s.site(owner, field, 'list', i, src=s.parent_kind(node))], f'{kind}.{field}.insert({i}, {org}:{d})')
                     return True
                 if op == 'delete' and n >= 2:
                     i = rng.randrange(n)
